@@ -59,6 +59,11 @@ type Comp struct {
 	Fire       []Fire `json:"fire,omitempty"`
 	PurgeOnRun int    `json:"purge_on_run,omitempty"` // call reactive.PurgeCache at the start of this run (0 = never)
 	ExpireMs   int    `json:"expire_ms,omitempty"`    // InvalidateAfter(d) on the first run only (0 = none)
+	// StragglerRun / StragglerUs: run number StragglerRun leaves a goroutine behind that asks
+	// for the first cached child once more, with that run's context, StragglerUs after it
+	// started (work a run handed off and did not wait for); 0 = none
+	StragglerRun int `json:"straggler_run,omitempty"`
+	StragglerUs  int `json:"straggler_us,omitempty"`
 }
 
 type Fire struct {
@@ -134,10 +139,12 @@ type Machine struct {
 	hits       Hits
 	exitsTotal int64 // completed runs of all rerunners
 	seq        int64 // event counter (registrations and cleanups)
+	stragglers sync.WaitGroup
 }
 
 // Hits counts the interesting interleavings that actually happened.
 type Hits struct {
+	Straggler              int32
 	WriteDuringRunAfterDep int32
 	WriteMid               int32
 	SharedSlotWrite        int32
@@ -355,6 +362,15 @@ func (rn *runner) compute(ctx context.Context) (interface{}, error) {
 		} else {
 			reactive.InvalidateAfter(ctx, d)
 		}
+	}
+	if rn.comp.StragglerRun == run && len(rn.comp.Children) > 0 {
+		m.stragglers.Add(1)
+		go func() {
+			defer m.stragglers.Done()
+			time.Sleep(time.Duration(rn.comp.StragglerUs) * time.Microsecond)
+			atomic.AddInt32(&m.hits.Straggler, 1)
+			m.child(ctx, rn.comp.Children[0], rn, -1)
+		}()
 	}
 	seen := map[int]int{}
 	fire := func(at int, after bool) {
@@ -724,6 +740,15 @@ func Run(c Case, checkCleanup bool) (Result, string, error) {
 		}
 	}
 	// stop everything; no run may start afterwards
+	{
+		sd := make(chan struct{})
+		go func() { m.stragglers.Wait(); close(sd) }()
+		select {
+		case <-sd:
+		case <-time.After(5 * time.Second):
+			return res, "straggler-stuck", fmt.Errorf("a goroutine that called reactive.Cache with the context of a finished run is still blocked 5s later")
+		}
+	}
 	for _, rn := range m.runners {
 		rn.rr.Stop()
 		rn.mu.Lock()
@@ -783,7 +808,7 @@ func Run(c Case, checkCleanup bool) (Result, string, error) {
 	h := m.hits
 	for k, v := range map[string]bool{"write-after-dep-during-run": h.WriteDuringRunAfterDep > 0, "write-between-capture-and-add": h.WriteMid > 0,
 		"shared-slot-write": h.SharedSlotWrite > 0, "stop-during-run": h.StopDuringRun > 0, "cache-reuse": h.CacheReuse > 0,
-		"child-recomputed": h.ChildRecomputed > 0, "purge": h.Purge > 0, "expire": h.Expire > 0, "yields": len(c.Yields) > 0, "child-skipped-some-run": h.ChildSkipped > 0, "foreign-registration": h.Foreign > 0} {
+		"child-recomputed": h.ChildRecomputed > 0, "purge": h.Purge > 0, "expire": h.Expire > 0, "yields": len(c.Yields) > 0, "child-skipped-some-run": h.ChildSkipped > 0, "foreign-registration": h.Foreign > 0, "straggler": h.Straggler > 0} {
 		if v {
 			res.Labels = append(res.Labels, k)
 		}
@@ -885,6 +910,10 @@ func Gen(t *rapid.T, cacheDepth int, hooks bool) Case {
 		}
 		if cacheDepth > 0 && rapid.IntRange(0, 4).Draw(t, "purge") == 0 {
 			comp.PurgeOnRun = rapid.IntRange(1, 3).Draw(t, "purgerun")
+		}
+		if len(comp.Children) > 0 && rapid.IntRange(0, 5).Draw(t, "straggler") == 0 {
+			comp.StragglerRun = rapid.IntRange(1, 3).Draw(t, "stragglerrun")
+			comp.StragglerUs = rapid.SampledFrom([]int{0, 50, 300, 1500}).Draw(t, "stragglerus")
 		}
 		if cacheDepth > 0 && rapid.IntRange(0, 5).Draw(t, "expire") == 0 {
 			comp.ExpireMs = rapid.SampledFrom([]int{1, 2, 3, -1, -2}).Draw(t, "expirems")
